@@ -114,11 +114,15 @@ static bool IsLess(const Char_T *left, const Char_T *right, SizeT left_length, S
     SizeT offset = 0;
 
     while ((left_length > offset) && (right_length > offset)) {
-        if (left[offset] > right[offset]) {
+        // By code unit: a plain 'char' above 0x7F is negative, but sorts after the ASCII range.
+        const SizeT32 left_unit  = SizeT32(left[offset]);
+        const SizeT32 right_unit = SizeT32(right[offset]);
+
+        if (left_unit > right_unit) {
             return false;
         }
 
-        if (left[offset] < right[offset]) {
+        if (left_unit < right_unit) {
             return true;
         }
 
@@ -135,11 +139,15 @@ static bool IsGreater(const Char_T *left, const Char_T *right, SizeT left_length
     SizeT offset = 0;
 
     while ((left_length > offset) && (right_length > offset)) {
-        if (left[offset] < right[offset]) {
+        // By code unit: a plain 'char' above 0x7F is negative, but sorts after the ASCII range.
+        const SizeT32 left_unit  = SizeT32(left[offset]);
+        const SizeT32 right_unit = SizeT32(right[offset]);
+
+        if (left_unit < right_unit) {
             return false;
         }
 
-        if (left[offset] > right[offset]) {
+        if (left_unit > right_unit) {
             return true;
         }
 
